@@ -9,6 +9,13 @@
      url  <pattern> <allow01> <raw> E                 refuse | proceed
      url  <pattern> <allow01> <raw> P <scheme> <host>
      urlfull (same arguments)                         refuse | proceed:broker | proceed:configured
+   Histories (one long-lived broker context / one long-lived SnowflakeProxy per case line; comma lists):
+     pollseq <allowed> <presumed> <ev,ev,...>         one of accept | reject | installed per event
+                                   ev: s<pattern> = field present, l = absent, n = null,
+                                       c<allowed>;<presumed> = InstallBridgeListProfile with new patterns
+     urlseq     <pattern> <allow01> <offer,offer,...> refuse | proceed per offer
+     urlseqfull <pattern> <allow01> <offer,offer,...> refuse | proceed:broker | proceed:configured per offer
+                                   offer: <raw>;E  or  <raw>;P;<scheme>;<host>
    All string arguments are payload specs (x<hex> / g<len>.<a>). *)
 From Coq Require Import List NArith Bool Arith String.
 From Snow Require Import Lib.Wire Model.NameMatcher Model.RelayCheck.
@@ -41,6 +48,57 @@ Definition run_url (op pat allow raw : bytes) (pu : option parsed_url) : bytes :
   | _, _, _, _ => ERR_BADCASE
   end.
 
+(* ---- histories ---- *)
+Definition poll_event_parse (it : bytes) : option broker_event :=
+  match it with
+  | k :: rest =>
+      if k =? 115 then option_map (fun p => EvPoll (Some p)) (payload_parse rest)
+      else if (k =? 108) || (k =? 110) then match rest with [] => Some (EvPoll None) | _ => None end
+      else if k =? 99 then
+        match split_on SEMI rest with
+        | [a; b] => match payload_parse a, payload_parse b with
+                    | Some x, Some y => Some (EvInstall (mk_broker_cfg x y))
+                    | _, _ => None
+                    end
+        | _ => None
+        end
+      else None
+  | [] => None
+  end.
+
+Definition poll_answer_print (o : option bool) : bytes :=
+  match o with Some true => bs "accept" | Some false => bs "reject" | None => bs "installed" end.
+
+Definition run_pollseq (a b evs : bytes) : bytes :=
+  match payload_parse a, payload_parse b, list_parse poll_event_parse evs with
+  | Some allowed, Some presumed, Some (e :: es) =>
+      list_print (map poll_answer_print (broker_run (mk_broker_cfg allowed presumed) (e :: es)))
+  | _, _, _ => ERR_BADCASE
+  end.
+
+Definition offer_parse (it : bytes) : option relay_offer :=
+  match split_on SEMI it with
+  | [raw; e] => if beq e (bs "E") then option_map (fun r => (r, ParseError)) (payload_parse raw) else None
+  | [raw; p; sch; host] =>
+      if beq p (bs "P") then
+        match payload_parse raw, payload_parse sch, payload_parse host with
+        | Some r, Some s, Some h => Some (r, Parsed s h)
+        | _, _, _ => None
+        end
+      else None
+  | _ => None
+  end.
+
+Definition run_urlseq (op pat allow offers : bytes) : bytes :=
+  match payload_parse pat, bool_parse allow, list_parse offer_parse offers with
+  | Some p, Some al, Some (o :: os) =>
+      let ds := proxy_run (mk_proxy_cfg p al) (o :: os) in
+      if beq op (bs "urlseq") then list_print (map decision_print_coarse ds)
+      else if beq op (bs "urlseqfull") then list_print (map decision_print ds)
+      else ERR_BADCASE
+  | _, _, _ => ERR_BADCASE
+  end.
+
 Definition run (args : list bytes) : bytes :=
   match args with
   | [op; a; b] =>
@@ -60,7 +118,8 @@ Definition run (args : list bytes) : bytes :=
                           ++ bs " mb=" ++ bool_print (is_member (new_matcher rb) h)
         | _, _, _ => ERR_BADCASE
         end
-      else ERR_BADCASE
+      else if beq op (bs "pollseq") then run_pollseq a b c
+      else run_urlseq op a b c
   | [op; a; b; c; d] =>
       if beq op (bs "poll") then
         match payload_parse a, payload_parse b, payload_parse d with
